@@ -48,17 +48,29 @@ def tier(argv=None):
 
 
 class Lock:
-    """Serialises build steps between concurrently running checks."""
+    """Serialises build steps between concurrently running checks (re-entrant within a process)."""
+    _held = {}     # path -> [file, depth]
     def __init__(self, name="build"):
         BUILD.mkdir(exist_ok=True)
-        self.path = BUILD / f".{name}.lock"
+        # everything that touches the shared Coq tree is serialised by ONE lock that lives in that tree
+        # (independent of the build directory), other steps by a lock per name in the build directory
+        self.path = str((VERIF / "coq" / ".coq.lock") if name.startswith("coq") else BUILD / f".{name}.lock")
     def __enter__(self):
-        self.f = open(self.path, "w")
-        fcntl.flock(self.f, fcntl.LOCK_EX)
+        h = Lock._held.get(self.path)
+        if h:
+            h[1] += 1
+            return self
+        f = open(self.path, "w")
+        fcntl.flock(f, fcntl.LOCK_EX)
+        Lock._held[self.path] = [f, 1]
         return self
     def __exit__(self, *a):
-        fcntl.flock(self.f, fcntl.LOCK_UN)
-        self.f.close()
+        h = Lock._held[self.path]
+        h[1] -= 1
+        if h[1] == 0:
+            fcntl.flock(h[0], fcntl.LOCK_UN)
+            h[0].close()
+            del Lock._held[self.path]
 
 
 def run(cmd, timeout=None, cwd=None, env=None, input=None, check=False):
@@ -101,6 +113,10 @@ CXXFLAGS = ["-std=gnu++23", "-fcoroutines", "-O1", "-DNOMINMAX", "-DGATERY_VERIF
 LDLIBS = ["-Wl,--start-group", f"{GATERY_B}/libgatery_scl.a", f"{GATERY_B}/libgatery_core.a",
           "-Wl,--end-group", "-lboost_system", "-lboost_filesystem", "-lboost_thread",
           "-lboost_iostreams", "-lboost_json", "-lyaml-cpp", "-ldl", "-lbacktrace", "-lpthread"]
+# experiments only (e.g. --coverage for bin/tie_coverage.sh); registered checks run without it
+_extra = os.environ.get("VERIF_EXTRA_CXXFLAGS", "").split()
+CXXFLAGS += _extra
+LDLIBS += _extra
 
 
 def _newest_header_mtime():
@@ -266,8 +282,9 @@ def build_model(cid, extract_file=None, driver=None, name=None):
             shutil.rmtree(wd)
         wd.mkdir()
         try:
-            rc, out = run(["coqc", "-Q", str(COQ / "Gatery"), "Gatery", "-o", str(wd / (ef.stem + ".vo")), str(ef)],
-                          cwd=wd, timeout=1200)
+            with Lock("coq_extract"):      # reads the compiled model files: not while a make rewrites them
+                rc, out = run(["coqc", "-Q", str(COQ / "Gatery"), "Gatery", "-o", str(wd / (ef.stem + ".vo")), str(ef)],
+                              cwd=wd, timeout=1200)
             last_model_log = out
             if rc != 0:
                 return None  # model did not compile: reported by caller as broken tie
